@@ -107,6 +107,8 @@ func init() {
 					R.decide("C10.f", kPrepend+":commit-last", "no error return after the receiver was replaced", path == "", path, P.Pos(st.Pos()))
 				}
 			}},
+		Rule{ID: "C10.i", Explain: "aliasing discipline: verifying leaves update messages, events and accumulators unchanged - no function mutates in place a big.Int it reached through revocation.Update / revocation.Event / revocation.EventList / revocation.SignedAccumulator / revocation.Accumulator (math/big mutators write their receiver), except the tabled merge/refresh functions.",
+			Run: func(P *Program, R *Report) { inPlaceDisciplineRule(P, R, "C10.i", "revocation.Update", "revocation.Event", "revocation.EventList", "revocation.SignedAccumulator", "revocation.Accumulator") }},
 		Rule{ID: "C10.g", Explain: "the verified memo of an event list is set only by Verify after all tests, by uncompress (which recomputes indices and parent hashes) and by FlattenEventLists; uncompress derives Index and ParentHash of every event after the first from its predecessor.",
 			Run: func(P *Program, R *Report) { verifiedMemoRule(P, R) }},
 	)
